@@ -1,7 +1,9 @@
 """C07 — RSA-OAEP and PKCS#1 v1.5 encryption (structural slice)."""
 from ..absval import ABytes, UNK
+from ..absint import Interp
+from ..absstate import State
 from ..rules_g import (Row, run_row, ObsRow, run_obs, I, S, Pred, OBJ, B, INT,
-                       LEN, INJECT, BIG)
+                       LEN, INJECT, BIG, realise)
 
 EXPLANATION = (
     "Rule G on the length/range guards of RSAES-OAEP and RSAES-PKCS1-v1_5 "
@@ -115,6 +117,35 @@ def run(check, ctx):
             what="the sentinel comes back exactly when the native decoder reports a failure "
                  "(negative result, or with an empty in-band sentinel a zeroed output buffer)",
             cite="property C07; contract documented in src/pkcs1_decode.c pkcs1_decode()"))
+    # ---- what the native decoder is told: the caller's expected length and sentinel on both paths -----------
+    wrong = []
+    for sent, lab in ((b"SENT", "bytes sentinel"), (None, "None sentinel"), ("txt", "str sentinel"), (bytes(K + 1), "over-long sentinel")):
+        for exp in (0, 16, 33):
+            seen = {}
+
+            def m_dec(i, a, kw, st, node, seen=seen):
+                seen["args"] = list(a)
+                return 50
+            it2 = Interp(repo, max_depth=2, extra_models={"Crypto.Cipher._pkcs1_oaep_decode.pkcs1_decode": m_dec}, method_models=mm)
+            st2 = State()
+            me2 = realise(v15_self, it2, st2, {})
+            res = it2.run(repo.module(V15), repo.func(repo.module(V15), "PKCS115_Cipher.decrypt"),
+                          {"ciphertext": ABytes(K), "sentinel": sent, "expected_pt_len": exp}, self_obj=me2, state=st2)
+            a = seen.get("args")
+            if not a or len(a) < 4:
+                wrong.append("%s, expected_pt_len %d: the native decoder is not called" % (lab, exp))
+                continue
+            in_band = isinstance(sent, bytes) and len(sent) <= K
+            if a[2] != exp:
+                wrong.append("%s, expected_pt_len %d: the native decoder is told %r" % (lab, exp, a[2]))
+            if in_band and a[1] != sent:
+                wrong.append("%s: the native decoder does not receive the sentinel" % lab)
+            if not in_band and a[1] != b"":
+                wrong.append("%s: the native decoder receives %r as in-band sentinel" % (lab, a[1]))
+    fn15 = repo.func(repo.module(V15), "PKCS115_Cipher.decrypt")
+    check.ob("K-pw", "K-pw|v15.decode.args", not wrong, repo.module(V15).path, fn15.lineno,
+             extracted="; ".join(wrong[:3]) if wrong else "12 (sentinel kind, expected length) combinations: the caller's expected_pt_len and sentinel (or the empty string when it cannot be passed in band) reach pkcs1_decode",
+             expected="the plaintext-length expectation is enforced by the constant-time decoder on every path (a correctly padded message of another length must give the sentinel)")
     # ---- MGF1 ------------------------------------------------------------------------------------
     calls = {}
 
